@@ -2,6 +2,8 @@ package c06
 
 import (
 	"fmt"
+	"net"
+	"sync/atomic"
 	"time"
 
 	"verif/harness/api"
@@ -142,5 +144,76 @@ func sweepAfter(yield func(afterCase) bool) {
 		if ev.Mine(i) && !yield(c) {
 			return
 		}
+	}
+}
+
+// Tens of thousands of broadcast-path requests from a client bound to 127.0.0.2 with bind port 0: the kernel hands out every
+// ephemeral source port in turn - the one that equals the destination port among them. Every single datagram leaves from
+// the configured bind address.
+type manyCase struct {
+	Calls int `json:"calls"`
+}
+
+func checkMany(c manyCase) *rp.Fail {
+	ev.Case("bind-address/every-ephemeral-source-port", true, fmt.Sprint(c))
+	sink, err := net.ListenUDP("udp4", &net.UDPAddr{IP: net.IPv4(127, 0, 0, 1)}) // (an ephemeral port: source ports can collide with it)
+	if err != nil {
+		return nil
+	}
+	defer sink.Close()
+	sink.SetReadBuffer(8 << 20)
+	port := uint16(sink.LocalAddr().(*net.UDPAddr).Port)
+	type bad struct {
+		from string
+		n    int
+	}
+	found := make(chan bad, 1)
+	var got, samePort atomic.Int64
+	go func() {
+		buf := make([]byte, 2048)
+		for {
+			_, from, err := sink.ReadFromUDPAddrPort(buf)
+			if err != nil {
+				return
+			}
+			n := got.Add(1)
+			if from.Port() == port {
+				samePort.Add(1)
+			}
+			if from.Addr().Unmap().String() != "127.0.0.2" {
+				select {
+				case found <- bad{from.String(), int(n)}:
+				default:
+				}
+			}
+		}
+	}()
+	u := hook.Real(hook.ClientCfg{TimeoutMs: 500, BindIP: [4]byte{127, 0, 0, 2}, HasBroadcast: true, BroadcastIP: [4]byte{127, 0, 0, 1}, BroadcastPort: port})
+	deadline := time.Now().Add(25 * time.Second)
+	sent := 0
+	for ; sent < c.Calls && time.Now().Before(deadline); sent++ {
+		res := api.Invoke(u, api.Case{Call: spec.Call{Op: "SetAddress", Serial: 405419896, Address: [4]byte{192, 168, 1, 100}, Mask: [4]byte{255, 255, 255, 0}, Gateway: [4]byte{192, 168, 1, 1}}})
+		if res.Panic != nil {
+			return rp.Failf("socket/broadcast/panic", "SetAddress panicked: %v", res.Panic)
+		}
+		select {
+		case b := <-found:
+			return rp.Failf("socket/broadcast/wrong-source/ephemeral-port", "request %d (about) of a client bound to 127.0.0.2:0 arrived from %s (%d requests had the destination's port number %d as their source port)", b.n, b.from, samePort.Load(), port)
+		default:
+		}
+	}
+	time.Sleep(50 * time.Millisecond)
+	select {
+	case b := <-found:
+		return rp.Failf("socket/broadcast/wrong-source/ephemeral-port", "request %d (about) of a client bound to 127.0.0.2:0 arrived from %s (%d requests had the destination's port number %d as their source port)", b.n, b.from, samePort.Load(), port)
+	default:
+	}
+	ev.NoteAdd("requests_whose_source_port_equalled_the_destination_port", samePort.Load())
+	return nil
+}
+
+func sweepMany(yield func(manyCase) bool) {
+	if ev.Mine(5) || ev.Thorough() {
+		yield(manyCase{Calls: ev.Pick(45000, 150000)})
 	}
 }
